@@ -69,6 +69,11 @@ _NEXT = [1]
 _POS: set = set()
 _NONNEG: set = set()
 _SIGN_MEMO: dict = {}
+_RANGES: dict = {}  # int variable name -> (lo, hi) declared finite range [lo, hi)
+
+
+def declare_range(name, lo, hi):
+    _RANGES[name] = (int(lo), int(hi))
 
 
 def reset():
@@ -77,6 +82,7 @@ def reset():
     _POS.clear()
     _NONNEG.clear()
     _SIGN_MEMO.clear()
+    _RANGES.clear()
 
 
 def declare_positive(v):
